@@ -2,6 +2,7 @@ package main
 
 import (
 	"bufio"
+	"encoding/json"
 	"fmt"
 	"go/ast"
 	"go/parser"
@@ -37,7 +38,9 @@ type Program struct {
 	allFns  []*ssa.Function
 	litOf   map[*ssa.Function]ast.Node
 	modSSA  []*ssa.Package
+	getterPkgs map[string]bool
 	implCache map[string]types.Type
+	gsCands   []types.Type
 	implMu    sync.Mutex
 }
 
@@ -66,6 +69,10 @@ func readContractLines(path string) (lines []string, nos []int, goText []string,
 
 // loadProgram loads package pkgPattern of the repository at repoDir with the verif tag, reads the
 // contracts, generates the clause functions into an in-memory file, type-checks and builds SSA.
+// knownFindingsFile: when set, open findings with an "except" predicate are compiled into clause
+// functions so that the obligation can be re-proved for all inputs outside the recorded one.
+var knownFindingsFile string
+
 func loadProgram(repoDir, pkgPattern, extDir string) (*Program, error) {
 	cfg := &packages.Config{
 		Mode: packages.NeedName | packages.NeedFiles | packages.NeedCompiledGoFiles | packages.NeedImports |
@@ -93,7 +100,9 @@ func loadProgram(repoDir, pkgPattern, extDir string) (*Program, error) {
 	}
 	// in-module dependencies keep their syntax: their function bodies can be executed inline
 	modPkgs := map[*types.Package]*packages.Package{}
+	allPkgs := map[string]*packages.Package{}
 	packages.Visit(pkgs, nil, func(p *packages.Package) {
+		allPkgs[p.PkgPath] = p
 		if p != p0 && P.modPath != "" && strings.HasPrefix(p.PkgPath, P.modPath) && p.Types != nil && len(p.Syntax) > 0 {
 			modPkgs[p.Types] = p
 		}
@@ -140,6 +149,11 @@ func loadProgram(repoDir, pkgPattern, extDir string) (*Program, error) {
 			extGo = append(extGo, goText...)
 		}
 	}
+	if orc, err := p4infoOracle(repoDir); err != nil {
+		return nil, err
+	} else if orc != "" {
+		extGo = append(extGo, orc)
+	}
 	// imports of the package's own files are available under their usual names
 	for _, f := range p0.Syntax {
 		for _, im := range f.Imports {
@@ -155,6 +169,13 @@ func loadProgram(repoDir, pkgPattern, extDir string) (*Program, error) {
 					cs.imports[alias] = path
 				}
 			}
+		}
+	}
+	P.getterPkgs = map[string]bool{}
+	for _, sp := range cs.srcPkgs {
+		if p, ok := allPkgs[sp]; ok && p.Types != nil && len(p.Syntax) > 0 {
+			modPkgs[p.Types] = p
+			P.getterPkgs[sp] = true
 		}
 	}
 	for _, c := range cs.order {
@@ -223,6 +244,26 @@ func loadProgram(repoDir, pkgPattern, extDir string) (*Program, error) {
 		P.genMap[cl.Fn] = cl
 		return nil
 	}
+	// known findings: "except" predicates over the parameters of the function
+	if knownFindingsFile != "" {
+		if b, err := os.ReadFile(knownFindingsFile); err == nil {
+			var kfs []KnownFinding
+			if json.Unmarshal(b, &kfs) == nil {
+				for i := range kfs {
+					k := kfs[i]
+					if k.Status == "fixed" || k.Except == "" || k.Function == "" {
+						continue
+					}
+					for _, c := range cs.order {
+						if shortKeyOf(p0.PkgPath, c.Key) == k.Function {
+							cl := &Clause{Kind: "requires", Label: "KF", Text: k.Except, Src: "KNOWN_FINDINGS.json"}
+							c.KFExcept = append(c.KFExcept, KFClause{Obligation: k.Obligation, Clause: cl})
+						}
+					}
+				}
+			}
+		}
+	}
 	for _, c := range cs.order {
 		var logicals []ArgDesc
 		for _, l := range c.Logicals {
@@ -232,6 +273,11 @@ func loadProgram(repoDir, pkgPattern, extDir string) (*Program, error) {
 		base = append(base, c.FreeVars...)
 		for _, cl := range c.Requires {
 			if err := emitClause(c, cl, append(append([]ArgDesc{}, base...), logicals...)); err != nil {
+				return nil, err
+			}
+		}
+		for _, kc := range c.KFExcept {
+			if err := emitClause(c, kc.Clause, append(append([]ArgDesc{}, base...), logicals...)); err != nil {
 				return nil, err
 			}
 		}
@@ -680,3 +726,5 @@ func stripCommentsAndStrings(src string) string {
 	}
 	return b.String()
 }
+
+func shortKeyOf(pkgPath, k string) string { return strings.ReplaceAll(k, pkgPath+".", "") }
